@@ -571,13 +571,21 @@ Fixpoint subst_operand (ms : list matched) (l : list ttok) : option operand :=
               end
   end.
 
-Fixpoint subst_operands (ms : list matched) (l : list (list ttok)) : option (list operand) :=
+Fixpoint subst_operands_raw (ms : list matched) (l : list (list ttok)) : option (list operand) :=
   match l with
   | [] => Some []
-  | o :: r => match subst_operand ms o, subst_operands ms r with
+  | o :: r => match subst_operand ms o, subst_operands_raw ms r with
               | Some a, Some b => Some (a :: b)
               | _, _ => None
               end
+  end.
+
+(* the expanded step is text: when its only operand template expands to no text at all ("ldx @OP(0)" with an `empty`
+   operand) the statement has no operands; with a comma in it, blank operands remain operands *)
+Definition subst_operands (ms : list matched) (l : list (list ttok)) : option (list operand) :=
+  match subst_operands_raw ms l with
+  | Some [[]] => Some []
+  | r => r
   end.
 
 (* ---------- the instruction set ---------- *)
